@@ -5,10 +5,17 @@
 //! and add it to `dispatch` below.
 mod enc;
 mod g_d;
+#[cfg(feature = "devices")]
+mod g_dv;
 mod g_k;
+mod g_mp;
 mod g_q;
+mod g_rf;
+mod g_se;
 mod g_ss;
 mod g_st;
+#[cfg(feature = "devices")]
+mod g_wr;
 mod gen_consts;
 mod script;
 
@@ -24,6 +31,14 @@ fn dispatch(toks: &[&str], out: &mut Vec<String>) -> R<()> {
         Some("st") => g_st::run(toks, out),
         Some("ss") => g_ss::run(toks, out),
         Some("k") => g_k::run(toks, out),
+        Some("mp") => g_mp::run(toks, out),
+        Some("se") => g_se::run(toks, out),
+        // Without rrtk's `devices` feature these two fall through to NOIMPL.
+        #[cfg(feature = "devices")]
+        Some("dv") => g_dv::run(toks, out),
+        #[cfg(feature = "devices")]
+        Some("wr") => g_wr::run(toks, out),
+        Some("rf") => g_rf::run(toks, out),
         _ => Err(Fail::NoImpl),
     }
 }
